@@ -2,6 +2,7 @@ import SlipVerif.Model.Lambda
 import SlipVerif.Model.LambdaCode
 import SlipVerif.Gen.Builtins
 import SlipVerif.Gen.LambdaCall
+import SlipVerif.Gen.BuiltinKeys
 /- C04 — obligations over the regenerated tables (Gen/Builtins.lean, Gen/LambdaCall.lean, rewritten
    by /verif/extract from the repository sources on every run). -/
 namespace SlipVerif.Theorems.GenC04
@@ -112,5 +113,35 @@ theorem defLambda_grammar :
 theorem marker_fold_facts :
     LambdaCall.markerFold = [(1, 0, true), (1, 1, true), (2, 0, true), (2, 1, true), (2, 2, true), (2, 3, false)] := by
   decide
+
+/-! ### keyword arguments of built-ins (Gen/BuiltinKeys.lean) -/
+
+/-- built-ins whose keyword literals cannot be told from their documented keys by reading the
+    source (keyword *values* such as `:supersede` for `:if-exists`, key parsing shared through a
+    helper that serves several functions, keys read through a table): not judged. A fixed list —
+    a built-in that leaves the judged set by a code change breaks `builtin_keys_documented`. -/
+def keysNotJudged : List String := ["cl:adjust-array", "cl:close", "cl:count", "cl:count-if", "cl:delete",
+  "cl:delete-duplicates", "cl:find", "cl:find-if", "cl:make-array", "cl:make-hash-table", "cl:make-sequence", "cl:open",
+  "cl:pathname-directory", "cl:pathname-name", "cl:pathname-type", "cl:position", "cl:position-if", "cl:remove",
+  "cl:remove-duplicates", "cl:search", "cl:write", "cl:write-to-string", "clos:change-class", "csv:csv-read", "gi:decrypt",
+  "gi:decrypt-file", "gi:defsystem", "gi:encrypt", "gi:encrypt-file", "gi:make-app", "net:graphql-query", "net:make-socket",
+  "net:socket-receive", "net:socket-send", "net:socket-shutdown", "swank:create-server", "test:defsuite", "xml:xml-read",
+  "xml:xml-write"]
+
+def sameKeys (a b : List String) : Bool := a.all (b.contains ·) && b.all (a.contains ·)
+
+/-- **builtin_keys_documented** — for every built-in with a documented `&key` section (outside the
+    fixed not-judged list): the keywords its `Call` (and the package functions it calls) looks at
+    are exactly its documented keys — every documented key is looked up, no undocumented key is. -/
+theorem builtin_keys_documented :
+    BuiltinKeys.entries.all (fun e => keysNotJudged.contains e.name || sameKeys e.doc e.body) = true := by
+  decide +kernel
+
+/-- the key table is not vacuous: at least 100 built-ins with a `&key` section are found and at
+    least two thirds of them are judged -/
+theorem builtin_keys_not_vacuous :
+    100 ≤ BuiltinKeys.entries.length ∧
+    2 * BuiltinKeys.entries.length ≤ 3 * (BuiltinKeys.entries.filter (fun e => !keysNotJudged.contains e.name)).length := by
+  decide +kernel
 
 end SlipVerif.Theorems.GenC04
